@@ -23,7 +23,10 @@ class CombineIsinstanceIssubclass(CombineCallsBaseCodemod):
     def make_call_matcher(self, func_name: str) -> m.Call:
         return m.Call(
             func=m.Name(func_name),
-            args=[m.Arg(value=m.Name()), m.Arg(value=m.Name() | m.Tuple())],
+            args=[
+                m.Arg(value=m.Name(), star=""),
+                m.Arg(value=m.Name() | m.Tuple(), star=""),
+            ],
         )
 
     def check_calls_same_instance(
